@@ -575,12 +575,12 @@ def c12(c):
     racedir = os.path.join(c.dir, "race")
     os.makedirs(racedir, exist_ok=True)
     # one driver process per start-up GOMAXPROCS value (0 = inherited): programs with envgmp = g run in a process started with GOMAXPROCS=g;
-    # the sustained-overlap programs (reps > 1) run on the plain build: several times more calls per second than under the race detector,
+    # the sustained-overlap programs (reps > 1) and the first-use programs (fresh configuration per program) run on the plain build: several times more calls per second than under the race detector,
     # which is what makes an overlap inside a short critical window likely
     groups = {}
     for ln in open(progs):
         pr = json.loads(ln)
-        groups.setdefault((pr.get("envgmp", 0), pr.get("reps", 1) > 1), []).append(ln)
+        groups.setdefault((pr.get("envgmp", 0), pr.get("reps", 1) > 1 or pr.get("fresh", False)), []).append(ln)
     files = []
     plain = vlib.build_harness()
     for (g, stress), lines in sorted(groups.items()):
